@@ -144,7 +144,10 @@ Proof.
 Qed.
 
 (* the order used for a sample = sorted_edge_inds filtered to the edges present
-   in THAT sample (no other sample of the batch has any influence) *)
+   in THAT sample.  Content: `conn_keys out = out`.  (That no other sample of the
+   batch has any influence is how Walk.v writes `connections = {}` per sample:
+   `walk_batch` is a `map`, so it holds by definition for any edge list; for the
+   CODE it is validated by the walk correspondence, not proved.) *)
 Lemma walk_batch_filtered_proof : forall es r samples, arborescence es r ->
   exists out, toposort es = Some out /\
     walk_batch es samples =
@@ -228,9 +231,10 @@ Proof.
 Qed.
 
 (* when an edge (u,v) is consumed, no edge consumed earlier has v as its source
-   or as its destination: the hypothesis under which C08 proves that
-   assign_connections_to_instances only meets its cases 1 and 2 holds for the
-   order actually used, in every sample *)
+   or as its destination: the ORDERING part of what C08 needs to prove that
+   assign_connections_to_instances only meets its cases 1 and 2 (C08 also needs
+   one-to-one, in-range matches per edge type, and uses the full-order form
+   `toposort_dst_fresh_proof`; nothing consumes this per-sample form) *)
 Lemma walk_sample_dst_fresh_proof : forall es r samples ws b present w, arborescence es r ->
   walk_batch es samples = Some ws -> nth_error samples b = Some present ->
   nth_error ws b = Some w ->
@@ -250,11 +254,10 @@ Proof.
   exact (toposort_dst_fresh_proof es r out Harb Ht K i u v HK Hi K' j a c HKlt HK' Hj).
 Qed.
 
-(* when the edge leading into the source u of a walked edge has no accepted
-   match in the sample, NO accepted connection of that sample leads into a part
-   of type u, in whatever order the connections are looked at: that the part u
-   of this animal has no parent in the sample is a fact about the detections
-   and matches of the sample, not about the way the skeleton was written *)
+(* when the edge leading into u has no accepted match in the sample, no matched
+   edge leads into u: it is the ONLY edge into u.  Follows from
+   `NoDup (map snd es)` alone (`absent_parent_edge_is_only_edge_into_proof`
+   below; the binders k i v and the walk are not used); nothing more is proved *)
 Lemma walk_sample_parent_absent_proof : forall es r samples ws b present w,
   arborescence es r ->
   walk_batch es samples = Some ws -> nth_error samples b = Some present ->
@@ -433,3 +436,219 @@ Proof. vm_compute. auto. Qed.
 Lemma stale_dict_changes_order :
   fold_left (fun keys i => dict_set i keys) [1;2;0;3;4] [0;3] = [0;3;1;2;4].
 Proof. vm_compute. reflexivity. Qed.
+
+(* ================================================================== *)
+(* Review round 4 additions                                            *)
+(* ================================================================== *)
+
+(* ------------------------------------------------------------------ *)
+(* item 7: the FULL key order of the dict of a sample (empty lists     *)
+(* included) is sorted_edge_inds itself: every edge exactly once,      *)
+(* parent before child                                                 *)
+
+Lemma conn_keys_is_toposort_proof : forall es r, arborescence es r ->
+  exists out, toposort es = Some out /\ conn_keys out = out /\
+              Permutation out (seq 0 (length es)) /\ parent_before_child es out r.
+Proof.
+  intros es r Harb.
+  destruct (toposort_tree_complete_ordered_proof es r Harb) as [out [Ht [Hperm Hpbc]]].
+  exists out. split; [exact Ht|]. split; [|split; assumption].
+  apply conn_keys_nodup. destruct (toposort_nodup es r out Harb Ht) as [Hnd _]. exact Hnd.
+Qed.
+
+(* ------------------------------------------------------------------ *)
+(* item 5: what `walk_sample_parent_absent` really rests on: with at   *)
+(* most one incoming edge per node, an absent edge into u is the only  *)
+(* edge into u, so no present edge leads into u.  Neither toposort nor *)
+(* the walk is involved.                                               *)
+
+Lemma absent_parent_edge_is_only_edge_into_proof : forall (es : list edge) present j p u,
+  NoDup (map snd es) -> nth_error es j = Some (p,u) -> ~ In j present ->
+  forall j' a, In j' present -> nth_error es j' = Some (a,u) -> False.
+Proof.
+  intros es present j p u Hnd Hj Hnot j' a Hp Hj'.
+  assert (j = j') by (apply (NoDup_snd_index es j j' p a u Hnd Hj Hj')). subst j'.
+  exact (Hnot Hp).
+Qed.
+
+(* ------------------------------------------------------------------ *)
+(* item 2: `is_tree` is COMPLETE for the hypothesis of the theorems    *)
+(* (with `is_tree_sound_proof`: a decision procedure for it)           *)
+
+Lemma parent_of_None : forall es v, ~ In v (map snd es) -> parent_of es v = None.
+Proof.
+  intros es v Hn. unfold parent_of.
+  destruct (find (fun e : nat * nat => snd e =? v) es) as [[a b]|] eqn:Hf; [|reflexivity].
+  apply find_some in Hf. destruct Hf as [Hin Hq]. simpl in Hq. apply Nat.eqb_eq in Hq. subst b.
+  exfalso. apply Hn. change v with (snd (a,v)). apply in_map. exact Hin.
+Qed.
+
+Lemma climb_root : forall es r f, ~ In r (map snd es) -> climb f es r = Some r.
+Proof.
+  intros es r f Hr. destruct f; simpl; rewrite (parent_of_None es r Hr); reflexivity.
+Qed.
+
+(* the ancestors of a non-root node: distinct destinations, no deeper than the
+   node; fuel = their number suffices to climb to the root *)
+Lemma climb_chain : forall es r (depth : nat -> nat),
+  NoDup (map snd es) -> ~ In r (map snd es) ->
+  (forall u v, In (u,v) es -> depth v = S (depth u) /\ (u = r \/ In u (map snd es))) ->
+  forall n u, depth u < n -> In u (map snd es) ->
+  exists l, NoDup l /\ incl l (map snd es) /\ (forall x, In x l -> depth x <= depth u) /\
+            forall f, length l <= f -> climb f es u = Some r.
+Proof.
+  intros es r depth Hnd Hr Hdepth. induction n as [|n IH]; intros u Hlt Hu; [lia|].
+  apply in_map_iff in Hu. destruct Hu as [[p u'] [E Hin]]. simpl in E. subst u'.
+  destruct (Hdepth p u Hin) as [Hd Hp].
+  pose proof (parent_of_edge es p u Hnd Hin) as Hpar.
+  assert (Hu : In u (map snd es)) by (change u with (snd (p,u)); apply in_map; exact Hin).
+  destruct Hp as [Hp|Hp].
+  - subst p. exists [u]. split; [constructor; [intros []|constructor]|]. split; [|split].
+    + intros x [Hx|[]]. subst x. exact Hu.
+    + intros x [Hx|[]]. subst x. lia.
+    + intros f Hf. simpl in Hf. destruct f as [|f]; [lia|]. simpl. rewrite Hpar.
+      apply climb_root. exact Hr.
+  - destruct (IH p) as [l [Hl1 [Hl2 [Hl3 Hl4]]]]; [lia | exact Hp |].
+    exists (u :: l). split; [|split; [|split]].
+    + constructor; [|exact Hl1]. intros Hx. apply Hl3 in Hx. lia.
+    + intros x [Hx|Hx]; [subst x; exact Hu | apply Hl2; exact Hx].
+    + intros x [Hx|Hx]; [subst x; lia | apply Hl3 in Hx; lia].
+    + intros f Hf. simpl in Hf. destruct f as [|f]; [lia|]. simpl. rewrite Hpar.
+      apply Hl4. lia.
+Qed.
+
+Lemma is_tree_complete_proof : forall es r, arborescence es r -> is_tree es = true.
+Proof.
+  intros es r Harb. pose proof (arborescence_root es r Harb) as Hroot.
+  destruct Harb as [Hne [Hnd [Hr [depth Hdepth]]]].
+  unfold is_tree. destruct es as [|e0 t] eqn:Ees; [congruence|]. rewrite <- Ees in *.
+  rewrite Hroot. apply andb_true_iff. split; [apply NoDup_nodupb; exact Hnd|].
+  apply forallb_forall. intros [u v] Hin. simpl.
+  destruct (Hdepth u v Hin) as [_ [Hu|Hu]].
+  - subst u. rewrite (climb_root es r _ Hr). apply Nat.eqb_refl.
+  - destruct (climb_chain es r depth Hnd Hr Hdepth (S (depth u)) u (Nat.lt_succ_diag_r _) Hu)
+      as [l [Hl1 [Hl2 [_ Hl4]]]].
+    rewrite (Hl4 (length es)); [apply Nat.eqb_refl|].
+    pose proof (NoDup_incl_length Hl1 Hl2) as Hlen. rewrite map_length in Hlen. exact Hlen.
+Qed.
+
+Lemma is_tree_iff : forall es, is_tree es = true <-> exists r, arborescence es r.
+Proof.
+  intros es. split; [apply is_tree_sound_proof|].
+  intros [r H]. exact (is_tree_complete_proof es r H).
+Qed.
+
+(* ------------------------------------------------------------------ *)
+(* item 1: polytrees (an undirected tree with an edge written towards  *)
+(* a node that already has a parent) are OUTSIDE `arborescence`, and   *)
+(* on them the model (like the code, networkx 3.6.1) returns an        *)
+(* INCOMPLETE order                                                    *)
+
+Lemma two_incoming_edges_not_arborescence_proof : forall es r i j a b v,
+  nth_error es i = Some (a,v) -> nth_error es j = Some (b,v) -> i <> j ->
+  ~ arborescence es r.
+Proof.
+  intros es r i j a b v Hi Hj Hne [_ [Hnd _]].
+  apply Hne. exact (NoDup_snd_index es i j a b v Hnd Hi Hj).
+Qed.
+
+Lemma toposort_polytree_incomplete_proof :
+  toposort [(0,1);(2,1)] = Some [0] /\
+  toposort [(1,0);(1,2);(3,2)] = Some [0;1] /\
+  is_tree [(0,1);(2,1)] = false /\
+  order_ok [(0,1);(2,1)] [0] = false /\
+  (forall r, ~ arborescence [(0,1);(2,1)] r).
+Proof.
+  split; [vm_compute; reflexivity|]. split; [vm_compute; reflexivity|].
+  split; [vm_compute; reflexivity|]. split; [vm_compute; reflexivity|].
+  intros r. apply (two_incoming_edges_not_arborescence_proof _ r 0 1 0 2 1); [reflexivity | reflexivity | discriminate].
+Qed.
+
+(* ------------------------------------------------------------------ *)
+(* item 1, general form: the model returns a COMPLETE order only if no *)
+(* node has two incoming edges (BFS discovers every node at most once, *)
+(* so the destinations of the emitted edges are distinct).  Holds for  *)
+(* every edge list, tree or not.                                       *)
+
+Lemma visit_children_spec : forall u cs visited nv em,
+  visit_children u cs visited = (nv, em) ->
+  map snd em = nv /\ NoDup nv /\ (forall c, In c nv -> ~ In c visited).
+Proof.
+  intros u. induction cs as [|c t IH]; intros visited nv em H; simpl in H.
+  - inversion H. subst. split; [reflexivity|]. split; [constructor | intros c []].
+  - destruct (memb c visited) eqn:E.
+    + exact (IH visited nv em H).
+    + destruct (visit_children u t (c :: visited)) as [nv' em'] eqn:Hv.
+      inversion H. subst nv em. clear H.
+      destruct (IH (c :: visited) nv' em' Hv) as [H1 [H2 H3]].
+      apply memb_false_iff in E.
+      split; [simpl; f_equal; exact H1|]. split.
+      * constructor; [|exact H2]. intros Hc. apply (H3 c Hc). left. reflexivity.
+      * intros c' [Hc'|Hc']; [subst c'; exact E|].
+        intros Hv'. apply (H3 c' Hc'). right. exact Hv'.
+Qed.
+
+Lemma bfs_dst_fresh : forall f es q visited out,
+  bfs f es q visited = Some out ->
+  NoDup (map snd out) /\ (forall v, In v (map snd out) -> ~ In v visited).
+Proof.
+  induction f as [|f IH]; intros es q visited out H.
+  - destruct q; simpl in H; [|discriminate]. inversion H. subst out.
+    split; [constructor | intros v []].
+  - destruct q as [|u q]; [simpl in H; inversion H; subst out; split; [constructor | intros v []]|].
+    rewrite bfs_cons in H.
+    destruct (visit_children u (children es u) visited) as [nv em] eqn:Hv.
+    destruct (bfs f es (q ++ nv) (rev nv ++ visited)) as [rest|] eqn:Hb; [|discriminate].
+    inversion H. subst out. clear H.
+    destruct (visit_children_spec _ _ _ _ _ Hv) as [H1 [H2 H3]].
+    destruct (IH _ _ _ _ Hb) as [H4 H5].
+    unfold edge in *. rewrite map_app, H1. split.
+    + apply NoDup_app_intro; [exact H2 | exact H4 |].
+      intros x Hx Hx'. apply (H5 x Hx'). apply in_or_app. left. apply -> in_rev. exact Hx.
+    + intros v Hvin. apply in_app_or in Hvin. destruct Hvin as [Hvin|Hvin].
+      * apply H3. exact Hvin.
+      * intros Hvis. apply (H5 v Hvin). apply in_or_app. right. exact Hvis.
+Qed.
+
+Lemma nth_seq_id : forall (A : Type) (d : A) (l : list A),
+  map (fun i => nth i l d) (seq 0 (length l)) = l.
+Proof.
+  intros A d. induction l as [|a t IH]; simpl; [reflexivity|].
+  f_equal. rewrite <- seq_shift, map_map. exact IH.
+Qed.
+
+Lemma index_map_nth : forall (es : list edge) d sorted out,
+  map (fun e => index_of e es) sorted = map Some out ->
+  map (fun i => nth i es d) out = sorted.
+Proof.
+  intros es d. induction sorted as [|e t IH]; intros out H; destruct out as [|i o]; simpl in H; try discriminate.
+  - reflexivity.
+  - inversion H as [[H1 H2]]. simpl. f_equal.
+    + apply nth_error_nth. apply index_of_nth. exact H1.
+    + apply IH. exact H2.
+Qed.
+
+(* the model returns a complete order ONLY IF no node has two incoming edges *)
+Lemma toposort_complete_only_if_one_parent_proof : forall es out,
+  toposort es = Some out -> Permutation out (seq 0 (length es)) -> NoDup (map snd es).
+Proof.
+  intros es out Ht Hperm. unfold toposort in Ht.
+  destruct (bfs_edges es) as [sorted|] eqn:Hb; [|discriminate].
+  apply all_some_Some in Ht.
+  pose proof (index_map_nth es (0,0) sorted out Ht) as Hs.
+  assert (Hp : Permutation sorted es).
+  { rewrite <- Hs. pose proof (Permutation_map (fun i => nth i es (0,0)) Hperm) as Hm.
+    unfold edge in *. rewrite (nth_seq_id (nat * nat) (0,0) es) in Hm. exact Hm. }
+  unfold bfs_edges in Hb. destruct (root es) as [r|]; [|discriminate].
+  destruct (bfs_dst_fresh _ _ _ _ _ Hb) as [Hnd _].
+  apply (Permutation_NoDup (Permutation_map snd Hp)). exact Hnd.
+Qed.
+
+Lemma two_incoming_edges_incomplete_proof : forall es i j a b v out,
+  nth_error es i = Some (a,v) -> nth_error es j = Some (b,v) -> i <> j ->
+  toposort es = Some out -> ~ Permutation out (seq 0 (length es)).
+Proof.
+  intros es i j a b v out Hi Hj Hne Ht Hperm.
+  apply Hne. apply (NoDup_snd_index es i j a b v); [|exact Hi|exact Hj].
+  exact (toposort_complete_only_if_one_parent_proof es out Ht Hperm).
+Qed.
